@@ -208,20 +208,37 @@ package bytecode
 //@   requires l != nil && state != nil && state.variables != nil
 //@   modifies allmaps(state.variables)
 //@   ensures result.1 != nil || true
-//@ func generateReplaceInstruction [C13]
-//@   trusted
-//@   effects onlywrites map<string>int
+// ---- the replacer program: one instruction per `with` item, in order (C05) ----
+//@ pred itemInst(a ast.AstAtom, tf map[string]AstProcessProgram, ri ReplaceInstruction) :=
+//@    (a is *ast.AstString ==> ri == box(ReplaceString, mk(ReplaceString, (a as *ast.AstString).Value)))
+//@    && (a is *ast.AstVariable && has(tf, (a as *ast.AstVariable).Name) ==> ri == box(ReplaceProcess, mk(ReplaceProcess, tf[(a as *ast.AstVariable).Name])))
+//@    && (a is *ast.AstVariable && !has(tf, (a as *ast.AstVariable).Name) ==> ri == box(ReplaceVariable, mk(ReplaceVariable, (a as *ast.AstVariable).Name)))
+//@ func generateReplaceString [C05]
+//@   requires l != nil
+//@   ensures result.1 == nil && len(result.0) == 1 && result.0[0] == box(ReplaceString, mk(ReplaceString, l.Value))
+//@ func generateReplaceVariable [C05]
 //@   requires l != nil && state != nil
-//@   ensures result.1 != nil || true
+//@   ensures result.1 == nil && len(result.0) == 1
+//@   ensures transform: has(state.globalTransformations, l.Name) ==> result.0[0] == box(ReplaceProcess, mk(ReplaceProcess, state.globalTransformations[l.Name]))
+//@   ensures variable: !has(state.globalTransformations, l.Name) ==> result.0[0] == box(ReplaceVariable, mk(ReplaceVariable, l.Name))
+//@ func generateReplaceInstruction [C13 C05]
+//@   effects onlywrites map<string>int [C13]
+//@   requires l != nil && state != nil
+//@   ensures item: ((*l) is *ast.AstString || (*l) is *ast.AstVariable) && wfbox(*l) ==> result.1 == nil && len(result.0) == 1 && itemInst(*l, state.globalTransformations, result.0[0]) [C05]
 
 //@ func generateFindCommand [C13]
 //@   noframe
 //@   requires f != nil && state != nil
 //@   loop 1 invariant scope: rangeindex == -1 ==> fresh(state.variables) && state.variables != nil && (forall k Str :: { select(domain(state.variables), k) } !has(state.variables, k))
 //@   loop 1 invariant live: state.variables != nil
-//@ func generateReplaceCommand [C13]
+//@ pred wfAtom(a ast.AstAtom) := (a is *ast.AstString || a is *ast.AstVariable) && wfbox(a)
+//@ func generateReplaceCommand [C13 C05]
 //@   noframe
 //@   requires r != nil && state != nil
+//@   presumes atoms: forall j :: { r.Result[j] } 0 <= j && j < len(r.Result) ==> wfAtom(r.Result[j]) [C05]
+//@   ensures items: result.1 == nil ==> result.0 is ReplaceCommand && len((result.0 as ReplaceCommand).Replacer) == len(r.Result) && (forall j :: { (result.0 as ReplaceCommand).Replacer[j] } 0 <= j && j < len(r.Result) ==> itemInst(r.Result[j], state.globalTransformations, (result.0 as ReplaceCommand).Replacer[j])) [C05]
+//@   loop 2 invariant items: len(result.Replacer) == rangeindex + 1 && rangeindex < len(r.Result) && (forall j :: { result.Replacer[j] } 0 <= j && j <= rangeindex ==> itemInst(r.Result[j], state.globalTransformations, result.Replacer[j])) [C05]
+//@   loop 2 invariant same: r.Result == old(r.Result) && state.globalTransformations == old(state.globalTransformations) && (forall j :: { r.Result[j] } 0 <= j && j < len(r.Result) ==> r.Result[j] == old(r.Result[j])) [C05]
 //@   loop 1 invariant scope: rangeindex == -1 ==> fresh(state.variables) && state.variables != nil && (forall k Str :: { select(domain(state.variables), k) } !has(state.variables, k))
 //@   loop 1 invariant live: state.variables != nil
 //@ func generateSetPattern [C13 C12]
